@@ -173,6 +173,12 @@ def proj_world_all(case, o):
     return sorted(o.items())
 
 
+def proj_sync_pods(case, o):
+    return ([e for e in log_entries(o) if ":pod:" in e and not e.startswith("patch:")], o.get("creates"))
+
+
+SY_L1 = " || sync: the same predicate re-checked on the calls the REAL pod control issues inside a whole sync (" + SY_RULE + ")"
+
 PROPS = {
     "C02": {"module": "Asts.Props.C02", "claimed": False, "runs": [wo(proj=proj_world_all), sy(quick=4000, proj=proj_sync_all)], "rule": WORLD_RULE + " || " + SY_RULE},
     "C08": {"module": "Asts.Props.C08", "claimed": False, "runs": [sy(proj=proj_sync_revs)], "rule": SY_RULE},
@@ -180,16 +186,16 @@ PROPS = {
     "C10": {"module": "Asts.Props.C10", "claimed": False, "runs": [sy(proj=proj_sync_owner)], "rule": SY_RULE},
     "C11": {"module": "Asts.Props.C11", "claimed": False, "runs": [sy(proj=proj_sync_c11)], "rule": SY_RULE},
     "C13": {"module": "Asts.Props.C13", "claimed": False, "runs": [sy(proj=proj_sync_history)], "rule": SY_RULE},
-    "C03": {"module": "Asts.Props.C03", "runs": [rc(proj=proj_deletes)], "rule": RC_RULE},
-    "C04": {"module": "Asts.Props.C04", "runs": [rc(proj=proj_creates)], "rule": RC_RULE},
-    "C05": {"module": "Asts.Props.C05", "runs": [rc(proj=proj_create_delete)], "rule": RC_RULE},
-    "C07": {"module": "Asts.Props.C07", "runs": [rc(proj=proj_create_delete)], "rule": RC_RULE},
+    "C03": {"module": "Asts.Props.C03", "runs": [rc(proj=proj_deletes), sy(quick=5000, thorough=60000, proj=proj_sync_pods)], "rule": RC_RULE + SY_L1},
+    "C04": {"module": "Asts.Props.C04", "runs": [rc(proj=proj_creates), sy(quick=5000, thorough=60000, proj=proj_sync_pods)], "rule": RC_RULE + SY_L1},
+    "C05": {"module": "Asts.Props.C05", "runs": [rc(proj=proj_create_delete), sy(quick=5000, thorough=60000, proj=proj_sync_pods)], "rule": RC_RULE + SY_L1},
+    "C07": {"module": "Asts.Props.C07", "runs": [rc(proj=proj_create_delete), sy(quick=5000, thorough=60000, proj=proj_sync_pods)], "rule": RC_RULE + SY_L1},
     "C12": {"module": "Asts.Props.C12", "runs": [rc(proj=proj_status), sy(quick=6000, proj=lambda c, o: o.get("status")), wo(quick=1200, proj=proj_world_final)],
             "rule": RC_RULE + " || " + SY_RULE + " || " + WORLD_RULE,
             "assumptions": ["bounds clause: every pod object of the snapshot carries a phase (the API server stamps Pending on create); "
                             "a phase-less pod outside the desired set drives currentReplicas to -1 in the model (example in Props/C12.lean)",
                             "generation clause: the stored observedGeneration is not ahead of the object's generation (true of every object the controller itself wrote)"]},
-    "C14": {"module": "Asts.Props.C14", "runs": [rc(proj=proj_create_delete)], "rule": RC_RULE,
+    "C14": {"module": "Asts.Props.C14", "runs": [rc(proj=proj_create_delete), sy(quick=5000, thorough=60000, proj=proj_sync_pods)], "rule": RC_RULE + SY_L1,
             "assumptions": ["replicas present and >= 0 (CRD)", "wfSnapshot (every pod has a phase, ordinals distinct)",
                             "pod ids are their positions in the snapshot and there are at most freshId pods (how the driver numbers pod objects; classify looks pods up by id)",
                             "pod ordinals < MaxInt32 and replica count of GetMaxReplicaCountAndDeleteSlots <= MaxInt32 (no sentinel panic, see C15)"]},
@@ -201,6 +207,7 @@ PROPS = {
         "runs": [
             {"engine": "ordinals", "quick": 30000, "thorough": 200000, "enum_thorough": ["all"], "proj": proj_all},
             rc(quick=20000, thorough=200000, proj=proj_creates),
+            sy(quick=4000, thorough=50000, proj=proj_sync_pods),
         ],
         "rule": RC_RULE + " || ordinals: r in 0..2000 (mostly < 12), annotation nil/absent/raw; raw = valid JSON int arrays with slots below/inside/above the range, "
                 "negatives, int32 extremes, duplicates, null elements, JSON whitespace, plus a malformed stream (fixed list + one-byte mutations); "
